@@ -211,6 +211,24 @@ Theorem C11_backtracking_line_search_spec : forall (F : OF) (fuel : nat) (phi : 
 Proof. exact C11_Pgdb.C11_backtrack_spec. Qed.
 Print Assumptions C11_backtracking_line_search_spec.
 
+(* A11  the step parameter selected before the loop (model re-proved equal to the source on every run): an explicit non-zero mu wins; None / 0 fall
+   back to 3/(2 sqrt n) with n from the start point, else from the tomography; neither -> failure *)
+Theorem C11_default_mu_selection : forall (F : OF) (sqrtn : nat -> F),
+  (forall m sl qn, m <> c0 F -> C11_default_mu F sqrtn (Some m) sl qn = Some m)
+  /\ (forall sl qn, C11_default_mu F sqrtn (Some (c0 F)) sl qn = C11_default_mu F sqrtn None sl qn)
+  /\ (forall n qn, C11_default_mu F sqrtn None (Some n) qn = Some (C11_mu_formula F sqrtn n))
+  /\ (forall n, C11_default_mu F sqrtn None None (Some n) = Some (C11_mu_formula F sqrtn n))
+  /\ C11_default_mu F sqrtn None None None = None.
+Proof. exact C11_Pgdb.C11_default_mu_spec. Qed.
+Print Assumptions C11_default_mu_selection.
+
+(* A12  the default mu satisfies the hypotheses `mu <> 0`, `0 <= mu` of A1-A5 whenever the square-root oracle is positive *)
+Theorem C11_default_mu_admissible : forall (F : OF) (sqrtn : nat -> F) (n : nat),
+  kle F (c0 F) (sqrtn n) -> sqrtn n <> c0 F ->
+  kle F (c0 F) (C11_mu_formula F sqrtn n) /\ C11_mu_formula F sqrtn n <> c0 F.
+Proof. exact C11_Pgdb.C11_mu_formula_pos. Qed.
+Print Assumptions C11_default_mu_admissible.
+
 (* ====================================================================== Part B *)
 (* B1  quara's physical projection (variable -> stacked full vector v |-> L v + c, EUCLIDEAN projection Pfull of the full
    vector onto the image of the feasible set, convert back) is, seen from variable space, the nearest-point map of the
@@ -425,6 +443,9 @@ Proof. exact C11_PovmMetric.C11_povm2_metric_scalar. Qed.
 (* the physical set of A5y is inhabited (d = 1) *)
 Example C11_ex_state_set_inhabited : forall F : OF, C11_state_set F 1 (C11_ex_B1 F) (fun _ => c1 F).
 Proof. exact C11_ex_state_set. Qed.
+(* A12's hypothesis is satisfiable: n = 4, sqrt 4 = 2 over Qc; the default mu is then 3/4 *)
+Example C11_ex_default_mu : C11_default_mu Qc_OF (fun _ => Q2Qc 2) None None (Some 4%nat) = Some (Q2Qc (3 # 4)).
+Proof. vm_compute. reflexivity. Qed.
 (* a basis satisfying the hypotheses of C1 / C2 over Qc: 2 qubits (d = 4), B_0 = I/2, sd = sqrt 4 = 2, c = 1/2, dd = 4 *)
 Example C11_ex_basis : @basis_0th_identity Qc_OF 4 (Q2Qc 2) (C11_ex_B Qc_OF (Q2Qc (1 # 2)))
   /\ cmul Qc_OF (Q2Qc (1 # 2)) (Q2Qc 2) = c1 Qc_OF /\ cmul Qc_OF (Q2Qc 2) (Q2Qc 2) = Q2Qc 4.
